@@ -10,6 +10,7 @@ from pathlib import Path
 from typing import Optional
 
 from . import astutil as A
+from .canon import canonicalise
 
 
 class AnalysisError(Exception):
@@ -95,6 +96,8 @@ class Repo:
                 tree = ast.parse(src, filename=str(p))
             except SyntaxError as e:
                 raise AnalysisError(f"cannot parse {rel}: {e}")
+            if os.environ.get("PYHFSA_NO_CANON") != "1":
+                canonicalise(tree)  # temporaries, append loops and if/else assignments in their expression form (see canon.py)
             m = Module(name=name, relpath=rel, path=p, source=src, tree=tree)
             self._index(m)
             self.modules[name] = m
